@@ -31,6 +31,39 @@ def small_scope(run, proj, why):
                                 'exhaustive_up_to_length': 2 if run.tier == 'quick' else 3}
 
 
+LAYOUT_LINES = ['f takes x', 'if x', 'else', 'while x', 'say 1', '', 'give back x', 'say 2']
+
+
+def layout_scope(run, proj, why):
+    """bounded-exhaustive BLOCK LAYOUT: every sequence of up to 4 (quick) / 6 (thorough) lines over a vocabulary with a function
+    header, if, else, a loop header, statements, a return and the blank line (which closes blocks); every sequence of up to
+    7 / 8 lines over the five lines that make the block structure; plus a sample of longer ones; how blank lines, `else` and the end of a function body interact is exactly what only whole layouts exercise"""
+    import itertools
+    L = 4 if run.tier == 'quick' else 6
+    ts = []
+    for k in range(1, L + 1):
+        for ls in itertools.product(LAYOUT_LINES, repeat=k):
+            ts.append('\n'.join(ls) + '\n')
+    # deeper, over the five lines that make the block structure (function, if, else, statement, blank)
+    core = ['f takes x', 'if x', 'else', 'say 1', '']
+    for k in range(L + 1, (7 if run.tier == 'quick' else 8) + 1):
+        for ls in itertools.product(core, repeat=k):
+            ts.append('\n'.join(ls) + '\n')
+    for _ in range(run.n(15000, 300000)):
+        k = run.rng.randint(5, 10)
+        t = '\n'.join(run.rng.choice(LAYOUT_LINES) for _ in range(k))
+        ts.append(t + ('\n' if run.rng.random() < 0.8 else ''))
+    reqs = ['parse ' + hx(t) for t in ts]
+    m, im = run.tie(reqs, proj=proj, functional=True, desc=lambda i: {'text': ts[i], 'section': 'block layout'})
+    for t, r in zip(ts, im):
+        if r is None:
+            continue
+        run.case(('layout', t), True, kind='block-layout', outcome=first_word(r))
+        if first_word(r) not in ('ok', 'err'):
+            run.fail({'text': t, 'answer': r[:200]}, why + ': parse does not return (%s)' % first_word(r))
+    run.extra['block_layout'] = {'lines': len(LAYOUT_LINES), 'exhaustive_up_to': L, 'core_lines_exhaustive_up_to': 7 if run.tier == 'quick' else 8, 'texts': len(ts)}
+
+
 # ----------------------------------------------------------------------------- C01
 
 def c01(run):
@@ -291,6 +324,7 @@ def c02(run):
     run.extra['renderings_per_tree'] = k
     # the function text -> tree itself, on every short token sequence (accepted: the tree; rejected: that it is rejected)
     small_scope(run, lambda r: 'err' if r.startswith('err') else rock.erase_positions(r), 'spelling -> tree')
+    layout_scope(run, lambda r: 'err' if r.startswith('err') else rock.erase_positions(r), 'block layout -> tree')
     # one construct repeated N times (N = powers of two +-1, 1000), words and names of every byte length: the tree
     sc = [t for _, _, t in texts.scale_programs(run.tier == 'quick')]
     sc += ['put ' + t + ' into ' + t + '\nsay ' + t + '\n' for t in texts.sized_tokens(run.tier == 'quick')[::7]]
@@ -456,6 +490,7 @@ def c13(run):
         f = r.split(' ')
         return 'err ' + f[2] if f[0] == 'err' else f[0]
     small_scope(run, proj13, 'rejection and its line')
+    layout_scope(run, proj13, 'rejection and its line')
 
 
 # ----------------------------------------------------------------------------- C11
